@@ -83,6 +83,7 @@ type Chain struct {
 	rng      *rand.Rand
 	Cfg      GenesisCfg
 	LastHash []byte
+	LastBegin abci.ResponseBeginBlock
 }
 
 func mkAccount(i int) Account {
@@ -246,6 +247,7 @@ func (c *Chain) BeginBlock(t int64) (res string, resp abci.ResponseBeginBlock) {
 	}()
 	resp = c.App.BeginBlock(abci.RequestBeginBlock{Header: tmproto.Header{
 		Height: c.Height, Time: time.Unix(t, 0).UTC(), AppHash: c.LastHash}})
+	c.LastBegin = resp
 	c.InBlock = true
 	return "ok", resp
 }
